@@ -80,7 +80,8 @@ package config
 // entry with a weaker (wildcard) host can never displace an exact-host entry
 // whatever its path, and the outcome does not depend on the iteration order.
 //@ func (*URLConfig).getAll
-//@   props C17 C10
+//@   props C17 C10 C11
+//@   monitor lasturlall[0] := result
 //@   loop 1 iter bestMatch.hostScore > iter(bestMatch.hostScore) || (bestMatch.hostScore == iter(bestMatch.hostScore) && (bestMatch.pathScore > iter(bestMatch.pathScore) || (bestMatch.pathScore == iter(bestMatch.pathScore) && bestMatch.userMatch >= iter(bestMatch.userMatch))))
 
 // C17 / C10: a configured host pattern matches a host only label by label: the
